@@ -36,6 +36,11 @@ def judge(case):
                 alg_used, N_used = p.get_alg(), p.get_N()
             g = fresh_sphere_grid(alg_used, N_used)
         else:
+            if alg in ("cube4D", "randomQ", "fulldiv") and 2 * N <= 120:
+                # a direction grid with as many rows as this rotation grid's double cover, looked at through its documented
+                # upper-half view first: a rotation grid must not depend on what was built before in the process
+                with quiet():
+                    fresh_sphere_grid(("ico", "cube3D", "randomS")[N % 3], 2 * N).get_grid_as_array(only_upper=True)
             g = fresh_sphere_grid(alg, N)
     except Exception as e:
         return [f"{alg}_{N}: construction raised {type(e).__name__}: {e}"]
